@@ -466,7 +466,7 @@ class C03(base.StoreSpec):
     prop = "C03"
     lean_modules = ["Banyan.Props.C03", "Banyan.Tie.C03"]
     theorems = ["Banyan.C03." + t for t in [
-        "flush_content", "mergeParts_spec", "merged_part_query", "maintenance_invisible", "maintenance_step_invisible",
+        "flush_content", "mergeParts_spec", "merged_part_query", "maintenance_invisible", "maintenance_invisible_batch", "maintenance_step_invisible",
         "query_after_maintenance", "conflict_rename_total",
         "sidx_exact_covered", "sMerge_wf", "sidx_merge_monotone", "sidx_merge_preserves", "sidx_merge_legacy_counterexample",
     ]] + ["Banyan.C02." + t for t in ["mergeStream_spec", "mergeTwoBlocks_spec", "mergeLoop_terminates", "queryMerge_spec",
@@ -503,7 +503,10 @@ class C03(base.StoreSpec):
         out = []
         nbig = 4 if n < 5000 else 40
         nhuge = 2 if n < 5000 else 10
-        for _ in range(n - 2 * nbig - 2 - nhuge - 4 - (253 if n < 5000 else 4012)):
+        nbat = 3 if n < 5000 else 40
+        for _ in range(nbat):
+            out.append(base.case_batch(rng, "bat", maint=True))
+        for _ in range(n - 2 * nbig - 2 - nhuge - 4 - nbat - (253 if n < 5000 else 4012)):
             r = rng.random()
             if r < 0.8:
                 out.append(case_maint(rng, "maint"))
